@@ -318,7 +318,9 @@ fn main() {
             bad += 1;
             d["path"] = json!(ci);
             d["step"] = json!(0);
-            d["tag"] = json!("C15");
+            // Conservation of the pool's buffers is C08, the editing semantics C15.
+            let conservation = d["field"].as_str().is_some_and(|f| f.starts_with("buffer ring after") || f.starts_with("buffers available after"));
+            d["tag"] = json!(if conservation { "C08" } else { "C15" });
             d["case"] = case.clone();
             writeln!(out, "{d}").unwrap();
             // Start from a clean pool after a divergence.
